@@ -112,12 +112,34 @@ def strat_step(draw, tier):
                 sd['agent'][3] = draw(gen.obj_s({'types': ['Key'] if draw(st.booleans()) else space['types'], 'colors': space['colors']}, 1))
             if need not in chain:
                 chain = chain + [need]
-    return {'state': sd, 'action': a, 'chain': chain, 'seed': draw(gen.seed_s)}
+    observe = None
+    if draw(st.integers(0, 3)) == 0:
+        f = draw(st.sampled_from(['partially_occluded', 'raytracing']))
+        area = draw(gen.area_s(3, ymax_zero=True))
+        if draw(st.booleans()):
+            h, w = M.shape(sd)
+            x = sd['agent'][1]
+            if not M.blocks_movement(sd['grid'][h - 1][x]):
+                sd = {'grid': [list(r) for r in sd['grid']], 'agent': [h - 1, x, 'F', sd['agent'][3]]}
+                area = [[-(h - 1), 0], [-x, w - 1 - x]]       # the view that covers the grid exactly
+        observe = {'f': f, 'area': area}
+    return {'state': sd, 'action': a, 'chain': chain, 'seed': draw(gen.seed_s), 'observe': observe}
 
 
 def oracle_step(case, ctx):
     sd, a, chain = case['state'], case['action'], case['chain']
-    nd = guarded(ctx, f'chain {chain}', run_chain, chain, sd, a, case['seed'])
+    if case.get('observe'):
+        # the agent looks at the world first; the very State that was observed is then stepped
+        from vgv import obsutil
+        S = objs.build_state(sd)
+        guarded(ctx, 'observation', obsutil.observe, case['observe']['f'], S, case['observe']['area'])
+        seen = objs.canon_state(S)
+        if M.inventory(seen) != M.inventory(sd) or seen != sd:
+            ctx.fail(f'observing ({case["observe"]["f"]}, area {case["observe"]["area"]}) changed the objects of the state: lost {dict(M.inventory(sd) - M.inventory(seen))}, '
+                     f'created {dict(M.inventory(seen) - M.inventory(sd))}', {'kind': 'conservation', 'action': 'observe'})
+        nd = objs.canon_state(guarded(ctx, f'chain {chain}', transition_with_copy, envs.mk_transition(chain), S, objs.action(a), rng=make_rng(case['seed'])))
+    else:
+        nd = guarded(ctx, f'chain {chain}', run_chain, chain, sd, a, case['seed'])
     check_conservation(ctx, sd, a, chain, nd, 'step')
     outs = M.step_outcomes(sd, a, chain)
     cl = nt_classes(sd, a, chain)
@@ -134,7 +156,9 @@ def oracle_step(case, ctx):
         cl.append('exact_model' if len(outs) == 1 else 'outcome_set')
     else:
         cl.append('invariants_only')
-    ctx.ev.case(case, nt=bool(set(cl) - {'exact_model', 'outcome_set', 'invariants_only'}), classes=cl, key=[sd, a, chain])
+    if case.get('observe'):
+        cl.append('observed_first')
+    ctx.ev.case(case, nt=bool(set(cl) - {'exact_model', 'outcome_set', 'invariants_only', 'observed_first'}), classes=cl, key=[sd, a, chain])
 
 
 # ------------------------------------------------------------------ exhaustive pick-and-drop table
@@ -185,6 +209,84 @@ def oracle_pick(case, ctx):
     ctx.ev.case(case, nt=nt, classes=nt_classes(sd, a, ['pickndrop', 'actuate_box']))
 
 
+# ------------------------------------------------------------------ user-defined holdable objects that carry data of their own
+
+from gym_gridverse import grid_object as _go  # noqa: E402
+from gym_gridverse.agent import Agent as _Agent  # noqa: E402
+from gym_gridverse.geometry import Orientation as _Orientation, Position as _Position  # noqa: E402
+from gym_gridverse.grid import Grid as _Grid  # noqa: E402
+from gym_gridverse.state import State as _State  # noqa: E402
+
+
+class VerifPouch(_go.GridObject):
+    """holdable; like Box, its payload is not part of ==/hash (type, status, colour)"""
+    state_index = 0
+    color = _go.Color.NONE
+    blocks_movement = False
+    blocks_vision = False
+    holdable = True
+
+    def __init__(self, payload):
+        self.payload = payload
+
+    @classmethod
+    def can_be_represented_in_state(cls):
+        return False
+
+    @classmethod
+    def num_states(cls):
+        return 1
+
+
+def enum_pouch(tier, shard, nshards):
+    i = 0
+    for hd in HEADINGS:
+        for front in ('pouch', 'key', 'floor', 'wall', 'edge'):
+            for held in ('pouch', 'key', 'none'):
+                for a in ('PICK_N_DROP', 'ACTUATE', 'MOVE_FORWARD'):
+                    for via_copy in (False, True):
+                        i += 1
+                        if i % nshards == shard:
+                            yield {'hd': hd, 'front': front, 'held': held, 'a': a, 'via_copy': via_copy}
+
+
+def oracle_pouch(case, ctx):
+    """pick / drop / swap move the *very objects* (whatever data they carry); nothing is created, lost or left behind"""
+    hd = case['hd']
+    mk = {'pouch': lambda tag: VerifPouch(tag), 'key': lambda tag: _go.Key(_go.Color.RED), 'floor': lambda tag: _go.Floor(), 'wall': lambda tag: _go.Wall(), 'none': lambda tag: None}
+    grid = _Grid.from_shape((3, 3))
+    pos = {'F': (0, 1), 'B': (2, 1), 'L': (1, 0), 'R': (1, 2)}[hd] if case['front'] == 'edge' else (1, 1)
+    f = (pos[0] + M.FWD[hd][0], pos[1] + M.FWD[hd][1])
+    front_obj = None
+    if case['front'] != 'edge':
+        front_obj = mk[case['front']]('in front')
+        grid[f] = front_obj
+    held_obj = mk[case['held']]('in hand')
+    s = _State(grid, _Agent(_Position(*pos), objs.ori(hd), held_obj))
+    fn = envs.mk_transition(['move_agent', 'turn_agent', 'actuate_door', 'actuate_box', 'pickndrop'])
+    if case['via_copy']:
+        n = guarded(ctx, 'transition_with_copy', transition_with_copy, fn, s, objs.action(case['a']), rng=make_rng(0))
+    else:
+        guarded(ctx, 'transition (in place)', fn, s, objs.action(case['a']), rng=make_rng(0))
+        n = s
+    tag = lambda o: (type(o).__name__, getattr(o, 'payload', None))  # noqa: E731
+    got_front = tag(n.grid[f]) if case['front'] != 'edge' else None
+    got_held = tag(n.agent.grid_object)
+    exp_front = tag(front_obj) if front_obj is not None else None
+    exp_held = tag(held_obj) if held_obj is not None else ('NoneGridObject', None)
+    if case['a'] == 'PICK_N_DROP' and case['front'] in ('pouch', 'key', 'floor'):
+        holdable_front = case['front'] in ('pouch', 'key')
+        exp_front = tag(held_obj) if held_obj is not None else ('Floor', None)
+        exp_held = tag(front_obj) if holdable_front else ('NoneGridObject', None)
+    if (got_front, got_held) != (exp_front, exp_held):
+        ctx.fail(f'{case["a"]} heading {hd} with {case["front"]} in front and {case["held"]} in hand ({"copy" if case["via_copy"] else "in place"}): '
+                 f'front cell now {got_front}, hand now {got_held}; documented: front {exp_front}, hand {exp_held}', {'kind': 'pick_identity', 'action': case['a']})
+    if not case['via_copy'] and case['a'] == 'PICK_N_DROP' and case['front'] in ('pouch', 'key') and held_obj is not None:
+        if n.grid[f] is not held_obj or n.agent.grid_object is not front_obj:
+            ctx.fail(f'in-place swap of {case["held"]} (hand) and {case["front"]} (front) did not move the objects themselves', {'kind': 'pick_identity'})
+    ctx.ev.case(case, nt=(case['a'] == 'PICK_N_DROP' and case['front'] != 'edge'), classes=['front:' + case['front'], 'held:' + case['held']])
+
+
 # ------------------------------------------------------------------ histories of shipped environments
 
 
@@ -230,9 +332,12 @@ def oracle_hist(case, ctx):
 CHECKS = [
     Check('step_generated', oracle_step, strategy=strat_step, examples={'quick': 1500, 'thorough': 5000},
           rule='generated state x action (biased to PICK_N_DROP/ACTUATE) x chain x seed: multiset conservation up to box opening, scenery immobility, membership in the model outcome set (exact equality for deterministic chains)',
-          required=['pick_holdable_front', 'swap', 'drop_on_floor', 'drop_refused', 'pick_front_outside', 'open_box', 'obstacles', 'exact_model', 'outcome_set']),
+          required=['pick_holdable_front', 'swap', 'drop_on_floor', 'drop_refused', 'pick_front_outside', 'open_box', 'obstacles', 'exact_model', 'outcome_set', 'observed_first']),
     Check('pickndrop_table', oracle_pick, enumerate=enum_pick, shards={'quick': 4, 'thorough': 8}, exhaustive=True,
           rule='4 headings x 15 front kinds (every type/status, or the grid edge) x 6 held items x 8 actions x 2 backgrounds, against the model next state'),
+    Check('payload_objects', oracle_pouch, enumerate=enum_pouch, shards={'quick': 2, 'thorough': 2}, exhaustive=True,
+          rule='a user-defined holdable type whose payload is not part of == (like Box contents): 4 headings x 5 front kinds x 3 hands x 3 actions, in place and through the copy: the very objects move',
+          required=['front:pouch', 'held:pouch']),
     Check('shipped_histories', oracle_hist, strategy=strat_hist, examples={'quick': 6, 'thorough': 20},
           rule='all 22 shipped configurations x seeds x <=200 (1000 thorough) actions: per-step conservation and constant inventory over each episode',
           required=['cfg:gv_keydoor.7x7', 'cfg:gv_dynamic_obstacles.7x7', 'grid_changed']),
